@@ -228,8 +228,12 @@ func c01(c *Ctx) {
 			r.Pass("R1.bounds", k, pos, "class "+cl.Name+": "+cl.Reason)
 			continue
 		}
+		if why := locallyGuarded(s); why != "" && got[k] == 1 {
+			r.Pass("R1.bounds", k, pos, "discharged locally: "+why)
+			continue
+		}
 		if dump {
-			fmt.Fprintf(os.Stderr, "UNTRIAGED\t%s\t%s\t%s\t%s\tx%d\t%s\n", s.FnName, s.Kind, s.Expr, pos, got[k], srcLine(p, s))
+			fmt.Fprintf(os.Stderr, "UNTRIAGED\t%s\t%s\t%s\t%s\tx%d\t%s\t%s\n", s.FnName, s.Kind, s.Expr, pos, got[k], srcLine(p, s), s.Raw)
 		}
 		r.Fail("R1.bounds", k, pos, "a bounds check on peer-reachable code that the compiler cannot prove and that is not in the triage table: with a suitable input this "+strings.TrimPrefix(s.Kind, "Is")+" check can fail and the handler panics (a length/offset check protecting it is missing, was removed or weakened)")
 	}
@@ -473,4 +477,80 @@ func c01other(c *Ctx, roots []*ssa.Function, reach map[*ssa.Function]bool, tab *
 		r.Check(w == nil, "R6.dispatch-default", core.FuncName(h), p.Pos(h.Pos()), "unknown message codes yield an empty reply", "an unknown message code can produce a non-empty reply: "+p.PathString(w))
 	}
 	_ = ast.Inspect
+}
+
+// locallyGuarded re-derives, for a site the compiler could not prove, a guard the checker can
+// see in the same function: a slice x[lo:hi] (or x[lo:]) all of whose paths pass the edge
+// len(x) >= hi (same expression), with lo a constant or hi = lo + unsigned; an index x[i] all of
+// whose paths pass i < len(x). Returns the reason, or "".
+func locallyGuarded(s core.BoundsSite) string {
+	if s.Fn == nil {
+		return ""
+	}
+	for _, b := range s.Fn.Blocks {
+		for _, in := range b.Instrs {
+			if in.Pos() != s.Pos {
+				continue
+			}
+			switch x := in.(type) {
+			case *ssa.Slice:
+				bound := x.High
+				if bound == nil {
+					bound = x.Low
+				}
+				if bound == nil {
+					return ""
+				}
+				if _, isC := core.ConstInt(bound); isC {
+					return ""
+				}
+				g := core.AnyFact(func(f core.Fact) bool {
+					return core.CmpFact(f, func(op token.Token, a, c ssa.Value) bool {
+						return op == token.GEQ && core.IsLenOf(a, func(v ssa.Value) bool { return v == x.X }) && core.SameExpr(core.Unwrap(c), core.Unwrap(bound))
+					})
+				})
+				if core.InstrGuarded(x, g, nil) != nil {
+					return ""
+				}
+				// lo <= hi
+				if x.High != nil && x.Low != nil {
+					if _, isC := core.ConstInt(x.Low); !isC {
+						bo, ok := x.High.(*ssa.BinOp)
+						if !ok || bo.Op != token.ADD || !(core.SameExpr(bo.X, x.Low) || bo.X == x.Low) {
+							return ""
+						}
+						// the addend is non-negative: converted from an unsigned value
+						cv, ok := bo.Y.(*ssa.Convert)
+						if !ok {
+							return ""
+						}
+						bt, ok := cv.X.Type().Underlying().(*types.Basic)
+						if !ok || bt.Info()&types.IsUnsigned == 0 {
+							return ""
+						}
+					}
+				}
+				return "every path passes len(x) >= the slice bound (same expression)"
+			case *ssa.IndexAddr:
+				if _, isC := core.ConstInt(x.Index); isC {
+					return ""
+				}
+				g := core.AnyFact(func(f core.Fact) bool {
+					return core.CmpFact(f, func(op token.Token, a, c ssa.Value) bool {
+						return op == token.LSS && (a == x.Index || core.SameExpr(core.Unwrap(a), core.Unwrap(x.Index))) && core.IsLenOf(c, func(v ssa.Value) bool { return v == x.X || core.SameValue(v, x.X) })
+					})
+				})
+				if core.InstrGuarded(x, g, nil) == nil {
+					// the index must also be non-negative: unsigned or a loop counter from 0
+					if bt, ok := x.Index.Type().Underlying().(*types.Basic); ok && bt.Info()&types.IsUnsigned != 0 {
+						return "every path passes index < len(x) for an unsigned index"
+					}
+					if isInductionVar(x.Index) {
+						return "every path passes index < len(x) for a loop counter"
+					}
+				}
+			}
+		}
+	}
+	return ""
 }
